@@ -253,7 +253,8 @@ func (ex *Exec) callIntrinsic(fr *frame, pos token.Pos, fn *ssa.Function, args [
 		return nil
 	case "ProtectGlobals":
 		for g, cell := range ex.globals {
-			if g.Pkg != nil && strings.HasPrefix(g.Pkg.Pkg.Path(), RepoModule) && g.Name() != "init$guard" && !strings.Contains(g.Pkg.Pkg.Path(), "/verifrt") {
+			// the repository's own variables, and the settings of the decimal library it computes with (DivisionPrecision ...)
+			if g.Pkg != nil && (strings.HasPrefix(g.Pkg.Pkg.Path(), RepoModule) || g.Pkg.Pkg.Path() == "github.com/shopspring/decimal") && g.Name() != "init$guard" && !strings.Contains(g.Pkg.Pkg.Path(), "/verifrt") {
 				ex.protectDeep(cell, "global "+g.String(), map[*value]bool{})
 			}
 		}
